@@ -13,6 +13,16 @@
 (* one for one and refuses leftovers that are duplicated, offsets are      *)
 (* summed.  Lists are compared as bags (the code sorts them by hash).      *)
 (*                                                                         *)
+(* Cut-through has BAG semantics: a commitment may occur several times      *)
+(* among the inputs and outputs of a family before the cut (created, spent *)
+(* and created again; spent, created and spent again; ...).  With o(x)     *)
+(* outputs and i(x) inputs carrying commitment x, min(o, i) PAIRS cancel   *)
+(* and |o - i| occurrences remain; the aggregate exists iff no commitment  *)
+(* remains more than once (Aggregable).  Section "shapes" names the shapes *)
+(* and states the verdict of each; PlanVerdict states when a bracketing is *)
+(* refused (exactly when one of its groups is itself not aggregable) and   *)
+(* that every bracketing that is not refused yields the same transaction.  *)
+(*                                                                         *)
 (* The module is an oracle and a case generator: the walk is               *)
 (*   root -> library -> family (<= 4 transactions of the library)          *)
 (*        -> plan (a permutation of the family with a bracketing)          *)
@@ -60,26 +70,76 @@ CutPairs(ins, outs) ==
       ELSE LET p == CHOOSE q \in M : \A q2 \in M : q[1] < q2[1] \/ (q[1] = q2[1] /\ q[2] <= q2[2])
            IN  CutPairs(RemoveAt(ins, p[1]), RemoveAt(outs, p[2]))
 
-CutThrough(ins, outs) ==
+\* mode "after" is the code's: duplicates are judged on what is left after the cut.  The other modes
+\* are careless variants kept to show that the plan families tell them apart (CarelessKilled):
+\*   "early"  duplicates judged before the cut (refuses re-creation when presented flat)
+\*   "set"    every input/output whose commitment occurs on the other side is removed (set semantics:
+\*            a re-created output disappears with the spent one)
+\*   "nodup"  no duplicate test at all (double spends and duplicate outputs pass)
+CutModes == {"after", "early", "set", "nodup"}
+CutThroughM(mode, ins, outs) ==
   LET c == CutPairs(ins, outs)
-  IN  IF HasDup(Commits(c.ins)) \/ HasDup(Commits(c.outs)) THEN Err ELSE c
+      mi == ToSet(Commits(ins)) \cap ToSet(Commits(outs))
+  IN  CASE mode = "after" -> IF HasDup(Commits(c.ins)) \/ HasDup(Commits(c.outs)) THEN Err ELSE c
+        [] mode = "early" -> IF HasDup(Commits(ins)) \/ HasDup(Commits(outs)) THEN Err ELSE c
+        [] mode = "set"   -> LET r == [ins |-> SelectSeq(ins, LAMBDA e : Commit(e) \notin mi),
+                                       outs |-> SelectSeq(outs, LAMBDA e : Commit(e) \notin mi)]
+                             IN  IF HasDup(Commits(r.ins)) \/ HasDup(Commits(r.outs)) THEN Err ELSE r
+        [] OTHER          -> c
+CutThrough(ins, outs) == CutThroughM("after", ins, outs)
 
 EmptyTx == [ins |-> <<>>, outs |-> <<>>, kerns |-> <<>>, off |-> 0]
 
+\* ---- shapes: how often a commitment is created (o) and spent (i) inside a family, before the cut
+AllIns(txs) == Concat([i \in 1..Len(txs) |-> txs[i].ins])
+AllOuts(txs) == Concat([i \in 1..Len(txs) |-> txs[i].outs])
+Touched(txs) == ToSet(Commits(AllIns(txs))) \cup ToSet(Commits(AllOuts(txs)))
+NIn(txs, x) == Count(Commits(AllIns(txs)), x)
+NOut(txs, x) == Count(Commits(AllOuts(txs)), x)
+Net(txs, x) == NOut(txs, x) - NIn(txs, x)
+ShapeOf(o, i) ==
+  CASE o + i <= 1       -> "once"                      \* ordinary input or output
+    [] o = 1 /\ i = 1   -> "chain"                     \* created and spent: the pair is cut
+    [] o = 2 /\ i = 1   -> "recreate"                  \* created, spent, created again: one output remains
+    [] o = 1 /\ i = 2   -> "respend"                   \* spent, created, spent again: one input remains
+    [] i = 0            -> "dup_output"                \* created twice, never spent: refused
+    [] o = 0            -> "double_spend"              \* spent twice, never created: refused
+    [] o = i            -> "cycle"                     \* created and spent equally often: nothing remains
+    [] o = i + 1        -> "recreate_n"
+    [] i = o + 1        -> "respend_n"
+    [] o > i + 1        -> "dup_output_after_cut"      \* two or more outputs remain: refused
+    [] OTHER            -> "double_spend_after_cut"    \* two or more inputs remain: refused
+RefusedShapes == {"dup_output", "double_spend", "dup_output_after_cut", "double_spend_after_cut"}
+Shapes(txs) == {ShapeOf(NOut(txs, x), NIn(txs, x)) : x \in Touched(txs)}
+\* some commitment is created more than once and not always with the same range proof
+ProofVariants(txs) == \E e1, e2 \in ToSet(AllOuts(txs)) : Commit(e1) = Commit(e2) /\ e1 # e2
+\* the aggregate of the family exists: after cancelling pairs no commitment is left twice
+Aggregable(txs) == \A x \in Touched(txs) : Net(txs, x) \in {0 - 1, 0, 1}
+\* ... and what is left then (as sets: nothing is left twice)
+ResidualIns(txs) == {e \in ToSet(AllIns(txs)) : Net(txs, Commit(e)) = 0 - 1}
+ResidualOuts(txs) == {e \in ToSet(AllOuts(txs)) : Net(txs, Commit(e)) = 1}
+
 \* ---- transaction::aggregate
-Aggregate(txs) ==
+AggregateM(mode, txs) ==
   IF \E i \in 1..Len(txs) : IsErr(txs[i]) THEN Err
   ELSE IF Len(txs) = 0 THEN EmptyTx
   ELSE IF Len(txs) = 1 THEN txs[1]
-  ELSE LET c == CutThrough(Concat([i \in 1..Len(txs) |-> txs[i].ins]), Concat([i \in 1..Len(txs) |-> txs[i].outs]))
+  ELSE LET c == CutThroughM(mode, Concat([i \in 1..Len(txs) |-> txs[i].ins]), Concat([i \in 1..Len(txs) |-> txs[i].outs]))
        IN  IF IsErr(c) THEN Err
            ELSE [ins |-> c.ins, outs |-> c.outs,
                  kerns |-> Concat([i \in 1..Len(txs) |-> txs[i].kerns]),
                  off |-> SumOff(txs)]
+Aggregate(txs) == AggregateM("after", txs)
 
+\* An output may carry a field pv naming WHICH valid range proof of its commitment it carries (a
+\* commitment created twice inside a family may come with two different proofs).  Cut-through knows
+\* commitments only: which of the proofs the surviving output carries is left free here (any proof
+\* some transaction of the family supplied, see ProofChoice); transactions are compared without it.
+OutKey(o) == <<o.v, o.r, o.cb, o.pf>>
+OutKeys(s) == [i \in 1..Len(s) |-> OutKey(s[i])]
 TxEq(a, b) ==
   IF IsErr(a) \/ IsErr(b) THEN IsErr(a) /\ IsErr(b)
-  ELSE BagEq(a.ins, b.ins) /\ BagEq(a.outs, b.outs) /\ BagEq(a.kerns, b.kerns) /\ a.off = b.off
+  ELSE BagEq(a.ins, b.ins) /\ BagEq(OutKeys(a.outs), OutKeys(b.outs)) /\ BagEq(a.kerns, b.kerns) /\ a.off = b.off
 
 \* ---- transaction::deaggregate(mk, txs): what mk holds beyond aggregate(txs), offsets subtracted
 Without(s, t) ==   \* elements of s not in t, first occurrence only (the code's contains() tests)
@@ -124,8 +184,17 @@ Leaf(i) == [t |-> i]
 Node(ps) == [g |-> ps]
 IsLeaf(p) == "t" \in DOMAIN p
 
-RECURSIVE Eval(_, _)
-Eval(p, txs) == IF IsLeaf(p) THEN txs[p.t] ELSE Aggregate([i \in 1..Len(p.g) |-> Eval(p.g[i], txs)])
+RECURSIVE EvalM(_, _, _)
+EvalM(mode, p, txs) == IF IsLeaf(p) THEN txs[p.t] ELSE AggregateM(mode, [i \in 1..Len(p.g) |-> EvalM(mode, p.g[i], txs)])
+Eval(p, txs) == EvalM("after", p, txs)
+
+RECURSIVE Leaves(_)
+Leaves(p) == IF IsLeaf(p) THEN {p.t} ELSE UNION {Leaves(p.g[i]) : i \in 1..Len(p.g)}
+RECURSIVE Groups(_)
+Groups(p) == IF IsLeaf(p) THEN {} ELSE {p} \cup UNION {Groups(p.g[i]) : i \in 1..Len(p.g)}
+\* the transactions a plan evaluates at its root (hydrate_from / from_reward take these)
+Parts(p, txs) == IF IsLeaf(p) THEN <<Eval(p, txs)>> ELSE [i \in 1..Len(p.g) |-> Eval(p.g[i], txs)]
+PartsOk(p, txs) == LET ps == Parts(p, txs) IN \A i \in 1..Len(ps) : ~IsErr(ps[i])
 
 Perms(n) == {s \in [1..n -> 1..n] : \A i, j \in 1..n : i # j => s[i] # s[j]}
 \* consecutive blocks of s given the set of cut positions
@@ -192,23 +261,56 @@ All == Aggregate(Txs)
 \* operands are valid transactions (the property quantifies over valid transactions)
 OperandsValid == phase = "library" => \A i \in 1..Len(Lib) : TB!TxValid(Lib[i], TxCtx)
 
-\* aggregation of a conflict-free family never fails, keeps all kernels, sums the offsets, and keeps
-\* inputs and outputs except exactly the matched spend pairs; the result is a valid transaction
+\* A family is aggregable iff after cancelling spend pairs no commitment is left twice.  Then the
+\* aggregate keeps all kernels, sums the offsets, and keeps of the inputs and outputs exactly what
+\* does not cancel: one input per commitment spent once more than created, one output per commitment
+\* created once more than spent (for a conflict-free family: everything except the matched pairs);
+\* the result is a valid transaction.  A family that is not aggregable (a commitment is left twice
+\* as an input: double spend; twice as an output: duplicate output) is refused.
 AggregateFaithful ==
-  (AtFamily /\ ConflictFree(Txs) /\ Len(fam) >= 1) =>
+  (AtFamily /\ Len(fam) >= 1) =>
     LET a == All
-        I == Concat([i \in 1..Len(Txs) |-> Txs[i].ins])
-        O == Concat([i \in 1..Len(Txs) |-> Txs[i].outs])
+        I == AllIns(Txs)
+        O == AllOuts(Txs)
         matched == ToSet(Commits(I)) \cap ToSet(Commits(O))
-    IN  /\ ~IsErr(a)
-        /\ BagEq(a.kerns, Concat([i \in 1..Len(Txs) |-> Txs[i].kerns]))
-        /\ a.off = SumOff(Txs)
-        /\ BagEq(a.ins, SelectSeq(I, LAMBDA e : Commit(e) \notin matched))
-        /\ BagEq(a.outs, SelectSeq(O, LAMBDA e : Commit(e) \notin matched))
-        /\ TB!TxValid(a, TxCtx)
+    IN  IF ~Aggregable(Txs) THEN IsErr(a)
+        ELSE /\ ~IsErr(a)
+             /\ BagEq(a.kerns, Concat([i \in 1..Len(Txs) |-> Txs[i].kerns]))
+             /\ a.off = SumOff(Txs)
+             /\ ~HasDup(a.ins) /\ ToSet(a.ins) = ResidualIns(Txs)
+             /\ ~HasDup(Commits(a.outs)) /\ ToSet(OutKeys(a.outs)) = {OutKey(e) : e \in ResidualOuts(Txs)}
+             /\ ToSet(a.outs) \subseteq ResidualOuts(Txs)
+             /\ ConflictFree(Txs) =>
+                  /\ BagEq(a.ins, SelectSeq(I, LAMBDA e : Commit(e) \notin matched))
+                  /\ BagEq(OutKeys(a.outs), OutKeys(SelectSeq(O, LAMBDA e : Commit(e) \notin matched)))
+             /\ TB!TxValid(a, TxCtx)
 
-\* the result does not depend on operand order or grouping
-OrderGroupingIndependent == (AtPlan /\ ConflictFree(Txs)) => TxEq(Eval(plan, Txs), All)
+\* the verdict of every shape: the family is refused iff it shows one of the refused shapes, and a
+\* conflict-free family (every commitment created at most once and spent at most once) never is
+ShapeVerdicts ==
+  AtFamily =>
+    /\ Aggregable(Txs) <=> Shapes(Txs) \cap RefusedShapes = {}
+    /\ ConflictFree(Txs) <=> Shapes(Txs) \subseteq {"once", "chain"}
+    /\ ConflictFree(Txs) => Aggregable(Txs)
+
+\* A plan is refused iff one of its groups, taken as a family of its own, is not aggregable (the
+\* intermediate result would carry a commitment twice: [a, c] of a : U -> X, b : X -> Y, c : Y -> X
+\* has no aggregate although [a, b, c] has one).
+PlanRefused(p, txs) == \E q \in Groups(p) : ~Aggregable(Sub(txs, Leaves(q)))
+
+\* The result does not depend on operand order or grouping, the error verdict included: every plan
+\* either is refused (exactly as PlanRefused says) or yields the aggregate of the family.  Hence a
+\* family that is not aggregable is refused by every plan, a conflict-free family by none, and for
+\* the shapes in between (recreate, respend, cycle) flat and every plan whose groups are aggregable
+\* agree.
+OrderGroupingIndependent ==
+  AtPlan =>
+    LET e == Eval(plan, Txs)
+    IN  /\ IsErr(e) <=> PlanRefused(plan, Txs)
+        /\ ~IsErr(e) => TxEq(e, All)
+        /\ ~IsErr(e) => ToSet(e.outs) \subseteq ToSet(AllOuts(Txs))     \* ProofChoice: a supplied proof, whichever
+        /\ ~Aggregable(Txs) => IsErr(e)
+        /\ ConflictFree(Txs) => ~IsErr(e)
 
 \* de-aggregating a known subset of an independent family returns the remainder
 DeaggregateRemainder ==
@@ -217,16 +319,18 @@ DeaggregateRemainder ==
       (S # {} /\ S # 1..Len(fam)) =>
         TxEq(Deaggregate(All, Sub(Txs, S)), Aggregate(Sub(Txs, (1..Len(fam)) \ S)))
 
-\* block -> compact block -> hydrated from the same transactions in any order / grouping is the block
+\* block -> compact block -> hydrated from the same transactions in any order / grouping whose
+\* groups exist is the block; and the block built from those groups is that block too
 HydrateIdentity ==
-  (AtPlan /\ ConflictFree(Txs)) =>
+  (AtPlan /\ Aggregable(Txs) /\ PartsOk(plan, Txs)) =>
     LET b == BlockOf(Txs, Rewards[lib], PrevOffset)
-        parts == IF IsLeaf(plan) THEN <<Eval(plan, Txs)>> ELSE [i \in 1..Len(plan.g) |-> Eval(plan.g[i], Txs)]
-    IN  BlockEq(Hydrate(Compact(b), parts), b)
+        parts == Parts(plan, Txs)
+    IN  /\ BlockEq(Hydrate(Compact(b), parts), b)
+        /\ BlockEq(BlockOf(parts, Rewards[lib], PrevOffset), b)
 
 \* and that block is a valid block body
 BlockValid ==
-  (AtFamily /\ ConflictFree(Txs)) =>
+  (AtFamily /\ Aggregable(Txs)) =>
     LET b == BlockOf(Txs, Rewards[lib], PrevOffset)
     IN  ~IsErr(b) /\ TB!BlockBodyValid(b.body, [as |-> "block", prev |-> b.prev, total |-> b.total,
                                                height |-> BlockHeight, ver |-> TB!NrdVersion, nrd |-> TRUE])
@@ -238,5 +342,14 @@ NonDegenerate(txs) ==
         S # {} => LET sub == Sub(txs, S)
                   IN  (\E i \in 1..Len(sub) : sub[i].off # 0) => (SumOff(sub) # 0 /\ PrevOffset + SumOff(sub) # 0)
   /\ LET a == Aggregate(txs) IN IsErr(a) \/ Len(txs) = 0 \/ ~TB!Degenerate(a, TxCtx)
-LibrariesNonDegenerate == (AtFamily /\ ConflictFree(Txs)) => NonDegenerate(Txs)
+LibrariesNonDegenerate == AtFamily => NonDegenerate(Txs)
+
+\* vacuity guards (checked at the root state): the libraries exercise every shape, and for every
+\* careless cut-through some family and plan of the libraries gives a different result
+LibFamily(l, f) == [i \in 1..Len(f) |-> Libraries[l][f[i]]]
+Kills(mode) ==
+  \E l \in 1..Len(Libraries) : \E f \in Families(l) : \E p \in Plans(Len(f)) :
+    ~TxEq(EvalM(mode, p, LibFamily(l, f)), Eval(p, LibFamily(l, f)))
+CarelessKilled == phase = "root" => \A m \in CutModes \ {"after"} : Kills(m)
+ShapesOfLibrary(l) == UNION {Shapes([i \in 1..Len(f) |-> Libraries[l][f[i]]]) : f \in Families(l)}
 =============================================================================
